@@ -602,7 +602,6 @@ struct Hist {
       if (rng.chance(0.33)) {
         s.op.ka = (uint8_t)((inf.cls == C_MUT_E || inf.cls == C_MUT_T) ? K_MAP : (rng.chance(0.5) ? K_MAP : K_CMAP));
         s.op.kb = (uint8_t)rng.below(3);
-        if (inf.cls == C_TAN && inf.arg2 == A_ELEM) s.op.kb = K_OWN;
         res.add("n.steps_through_views", 1);
       }
     }
